@@ -140,4 +140,16 @@ META = {
                      "conversion/facade/retort.py; providers and generated code run atomically between two in-scope lines; code_tools/compiler.py (the only lock) is outside the yield scope",
                      "a watchdog firing (20 s without completion) is reported as no-progress"],
     ),
+    "C08": _m(
+        "one case = one instrumented model (dataclass with __post_init__, NamedTuple, attrs with validators and __attrs_post_init__, plain __init__ class and "
+        "constructor(pred, func) with positional-only / positional-or-keyword / keyword-only parameters) with 0-2 required and 1-4 optional fields whose defaults come "
+        "from a pool built to defeat literal inlining (Decimal/Fraction/complex/IntEnum/str-enum values equal to 0, 1, '', singletons, nan, range/slice, bytes, nested "
+        "tuples/frozensets, user objects, mutable lists/dicts/sets/bytearrays) or from 12 counting factories; every subset of optional fields present (<= 8 per program), "
+        "optionally with a skipped middle parameter, loaded twice in 2 (thorough: 6) modes. Oracle: constructor call log (exactly one call, one post-init, all validators), "
+        "signature binding of the logged call, field-wise type-strict equality with the model's own construction from the present fields, factory call counts and "
+        "non-sharing of factory results; plus on every run the whole default pool x 4 kinds. distinct = (model, present subset, mode, repetition); non-trivial = >= 1 optional field absent",
+        cases=(40, 800), budget=(50, 420),
+        minimums={"quick": {"programs": 250, "loads": 6000, "constructor_calls_logged": 6000, "distinct_nontrivial": 2500, "kind_func": 20, "kind_init": 40, "pkind_po": 20, "pkind_ko": 100}},
+        assumptions=["adaptix may pass the default explicitly for absent fields: the oracle judges the resulting object and the binding, not which arguments are omitted"],
+    ),
 }
